@@ -9,7 +9,8 @@ import (
 
 // C02 — metavariables bind by kind and bind consistently.
 var c02 = &modelCheck{
-	Prop: "C02",
+	Prop:         "C02",
+	NestedChoice: 12,
 	Opts: modelOpts{
 		Mine:         gen.MineOpts{MaxHoles: 3, MaxDots: 1, RepeatBias: true},
 		MaxHostLines: 160,
@@ -35,7 +36,8 @@ func TestReplayC02(t *testing.T) { c02.replay(t) }
 
 // C03 — rewritten code is the '+' pattern instantiated with what was captured.
 var c03 = &modelCheck{
-	Prop: "C03",
+	Prop:         "C03",
+	NestedChoice: 20,
 	Opts: modelOpts{
 		Mine:         gen.MineOpts{MaxHoles: 3, NoDots: true, DupBias: true, Unwrap: true},
 		MaxHostLines: 160,
